@@ -182,6 +182,12 @@ class Fn:
                 kk = bk + sep + "_mp_prec"
                 return (tscale(tadd(T(0, [(("m", kk, st.fver.get(kk, 0)), 1)]), T(1)), 8), "(PREC + 1) * BYTES_PER_MP_LIMB of the same mpf object")
             return None
+        if e.get("k") == "member" and e["field"] == "buf" and "asprintf" in json.dumps(e["base"]):
+            # struct gmp_asprintf_t: buf holds alloc bytes (GMP_ASPRINTF_T_NEED updates alloc, then reallocates with the old value)
+            bk = key(e["base"])
+            if bk:
+                kk = bk + ("->" if e["arrow"] else ".") + "alloc"
+                return (T(0, [(("m", kk, st.fver.get(kk, 0)), 1)]), "alloc of the same gmp_asprintf_t")
         if e.get("k") == "member" and e["field"] == "allocated":
             bk = key(e["base"])
             if bk:
